@@ -15,6 +15,7 @@ Arguments tl_try : simpl never.
 Arguments tl_rel_raises : simpl never.
 Arguments normalise : simpl never.
 Arguments faulty : simpl never.
+Arguments intr : simpl never.
 Arguments enabled : simpl never.
 Arguments remove_all : simpl never.
 Arguments remove_one : simpl never.
@@ -82,7 +83,7 @@ Lemma step_open s t a :
   enabled s t = true -> t_pc (thr s t) = POpen a ->
   step s t =
   let '(f, s1) := sys s KOpen in
-  if f then after_attempt s1 t a
+  if f then (if intr s KOpen then enter_cleanup s1 t a true else after_attempt s1 t a)
   else let '(d, s2) := k_open s1 (t_proc (thr s t)) in set_pc s2 t (PFlock a d).
 Proof. intros He Hpc. unfold step. now rewrite He, Hpc. Qed.
 
@@ -90,20 +91,20 @@ Lemma step_flock s t a d :
   enabled s t = true -> t_pc (thr s t) = PFlock a d ->
   step s t =
   let '(f, s1) := sys s KLock in
-  if f then set_pc s1 t (PCloseF a d)
+  if f then set_pc s1 t (PCloseF a d (intr s KLock))
   else if holder_free_for s1 d
        then let s2 := set_holder s1 (Some d) in
             let s3 := set_obj s2 (a_o a) (set_fd (objs s2 (a_o a)) (Some d)) in
             finish_acq s3 t a RTrue
-       else set_pc s1 t (PCloseF a d).
+       else set_pc s1 t (PCloseF a d false).
 Proof. intros He Hpc. unfold step. now rewrite He, Hpc. Qed.
 
-Lemma step_closef s t a d :
-  enabled s t = true -> t_pc (thr s t) = PCloseF a d ->
+Lemma step_closef s t a d i :
+  enabled s t = true -> t_pc (thr s t) = PCloseF a d i ->
   step s t =
   let '(f, s1) := sys s KClose in
   let s2 := k_close s1 d in
-  if f then enter_cleanup s2 t a true else after_attempt s2 t a.
+  if f || i then enter_cleanup s2 t a true else after_attempt s2 t a.
 Proof. intros He Hpc. unfold step. now rewrite He, Hpc. Qed.
 
 Lemma step_sleep s t a w :
